@@ -1,4 +1,5 @@
 import Proofs.Dap4
+import Proofs.Dmr
 import Proofs.Hyperslab
 import Proofs.Slice
 import Proofs.SliceTuple
